@@ -13,6 +13,8 @@ package main
 //          the same through every --filter path of core.go: --no-sort (streaming), --tac, --sync and their
 //          combinations, an exact one-letter query on the order-preserving paths
 //          spec  filter_listing (op 608);  corr  filter_run (op 607)
+//          (c06scope.go) the same paths with --nth / --with-nth [-d SEP] and an exact query over fielded records
+//          spec  query_listing (op 611)
 //   inter: (c06inter.go) interactive sessions on a pty: initial source (stdin / FZF_DEFAULT_COMMAND / start:reload),
 //          then reload / reload-sync histories; the list of GET / (index, text) after each source was read
 //          spec  session_views (op 610);  corr  run_session (op 609)
@@ -69,6 +71,11 @@ type c06Case struct {
 	Tac    bool   `json:"tac,omitempty"`
 	Sync   bool   `json:"sync,omitempty"`
 	Query  string `json:"query,omitempty"` // proc: exact, case-sensitive, literal query (only with nosort: listing order = stream order)
+	// proc: where the query is searched (c06scope.go): --nth EXPRS / --with-nth EXPRS, -d SEP (literal; "" = AWK-style).
+	// With one of them the query is used on every path; on the sorting paths the listing is compared as a multiset.
+	Nth     string `json:"nth,omitempty"`
+	WithNth string `json:"with_nth,omitempty"`
+	Delim   string `json:"delim,omitempty"`
 	// inter: the input sources of one session, in order
 	Loads []c06Load `json:"loads,omitempty"`
 }
@@ -106,6 +113,9 @@ func (cs *c06Case) summary() map[string]interface{} {
 	if cs.NoSort || cs.Tac || cs.Sync || cs.Query != "" {
 		m["path"] = cs.pathName()
 	}
+	if cs.scoped() {
+		m["nth"], m["with_nth"], m["delim"], m["query"] = cs.Nth, cs.WithNth, cs.Delim, cs.Query
+	}
 	if len(cs.Loads) > 0 {
 		acts := []string{}
 		for _, l := range cs.Loads {
@@ -132,8 +142,17 @@ func (cs *c06Case) pathName() string {
 	if cs.Sync {
 		n += "+sync"
 	}
-	if cs.Query != "" && cs.NoSort {
+	if cs.Query != "" && (cs.NoSort || cs.scoped()) {
 		n += "+query"
+	}
+	if cs.Nth != "" {
+		n += "+nth"
+	}
+	if cs.WithNth != "" {
+		n += "+with-nth"
+	}
+	if cs.scoped() && cs.Delim != "" {
+		n += "+delim"
 	}
 	return n
 }
@@ -557,8 +576,18 @@ func c06Proc(c *Ctx, cs *c06Case) {
 	}
 	plain := !cs.NoSort && !cs.Tac && !cs.Sync
 	query := ""
-	if cs.NoSort { // only where nothing is ranked: the listing keeps stream order
+	if cs.NoSort || cs.scoped() { // in stream order only where nothing is ranked; under sorting (scoped cases) as a multiset
 		query = cs.Query
+	}
+	scoped := cs.scoped() && query != ""
+	var scopeArgs []string
+	var scopeWant []string
+	if scoped {
+		var err error
+		if scopeArgs, scopeWant, err = c06ScopeSpec(c, cs, data); err != nil {
+			rep.Count("proc:scope_case_malformed")
+			return
+		}
 	}
 	writes := cs.cutList(1 << 16)
 	// spec + model
@@ -574,14 +603,20 @@ func c06Proc(c *Ctx, cs *c06Case) {
 	for _, it := range wantItems {
 		t := it.L[1].Str()
 		byIndex[int(it.L[0].I)] = t
+		if scoped {
+			continue
+		}
 		if query == "" || bytes.Contains([]byte(t), []byte(query)) { // a searchable item is found by what it contains
 			wantTexts = append(wantTexts, t)
 		}
 	}
+	if scoped { // spec query_listing (op 611): the items whose OWN record is found in the searched fields
+		wantTexts = scopeWant
+	}
 	rep.Eval(c06Key(cs), len(wantItems) >= 2)
 	fargs := []string{"-f", ""}
 	if query != "" {
-		fargs = []string{"-e", "+i", "--literal", "-f", query}
+		fargs = append(append([]string{"-e", "+i", "--literal"}, scopeArgs...), "-f", query)
 	}
 	out, errs, code := c06RunFzf(c, append(append([]string{}, base...), fargs...), data, writes)
 	rep.ImplTraces++
@@ -591,10 +626,20 @@ func c06Proc(c *Ctx, cs *c06Case) {
 	if len(wantTexts) == 0 {
 		wantCode = 1
 	}
-	if !ok || !Strs(got).Equal(Strs(wantTexts)) || code != wantCode {
+	same := Strs(got).Equal(Strs(wantTexts))
+	if scoped && !cs.NoSort { // ranked listing: the same items, in whatever order (ranking is C04's subject)
+		g, w := append([]string{}, got...), append([]string{}, wantTexts...)
+		sort.Strings(g)
+		sort.Strings(w)
+		same = Strs(g).Equal(Strs(w))
+	}
+	if !ok || !same || code != wantCode {
 		name := "searchable(filter output)"
 		if !plain || query != "" {
 			name = "filter_listing(" + cs.pathName() + ")"
+		}
+		if scoped {
+			name = "query_listing(" + cs.pathName() + ")"
 		}
 		rep.Disagreement(Disagreement{Kind: "spec", Name: name, Input: cs,
 			Impl:   fmt.Sprintf("fzf %q: exit %d stderr %q %s", append(append([]string{}, base...), fargs...), code, c06Clip(errs), c06Brief(got)),
@@ -943,7 +988,7 @@ func c06Run(c *Ctx, cs *c06Case) {
 }
 
 func runC06(c *Ctx) {
-	c.Rep.Rule = "feed: byte streams 0..300 KiB (sizes and delimiters on/around the 64 KiB read buffer and 128 KiB slab boundaries) x cut lists (fill, fixed 1..131073, random, adversarial around boundaries, (0,nil) runs <= 99); ops: Push/Snapshot(tail)/Clear histories around chunk size 100; proc: fzf -f '' with --read0/--tail/--header-lines through every filter path (default, --no-sort streaming, --tac, --sync, combinations; exact one-letter query on the unsorted paths), stdin through a pipe in cut patterns, {n} probes; inter: pty sessions, initial source stdin / FZF_DEFAULT_COMMAND / start:reload then reload / reload-sync histories (streams delivered whole or in two parts), list (index, text) of GET / after each source. non-trivial = feed: >=2 records and >=2 reads; ops: a tail trim happened or >=2 chunks; proc: >=2 searchable items; inter: >=2 sources and >=2 items in some list; distinct by JSON of the case"
+	c.Rep.Rule = "feed: byte streams 0..300 KiB (sizes and delimiters on/around the 64 KiB read buffer and 128 KiB slab boundaries) x cut lists (fill, fixed 1..131073, random, adversarial around boundaries, (0,nil) runs <= 99); ops: Push/Snapshot(tail)/Clear histories around chunk size 100; proc: fzf -f '' with --read0/--tail/--header-lines through every filter path (default, --no-sort streaming, --tac, --sync, combinations; exact one-letter query on the unsorted paths), stdin through a pipe in cut patterns, {n} probes; proc-scope: streams of fielded records (AWK-style or literal -d), --nth / --with-nth field expressions with an exact one-letter query through every filter path (biased to the streaming one), listing = the items whose own record is found (query_listing), in order on the unsorted paths, as a multiset on the sorting ones; inter: pty sessions, initial source stdin / FZF_DEFAULT_COMMAND / start:reload then reload / reload-sync histories (streams delivered whole or in two parts), list (index, text) of GET / after each source. non-trivial = feed: >=2 records and >=2 reads; ops: a tail trim happened or >=2 chunks; proc: >=2 searchable items; inter: >=2 sources and >=2 items in some list; distinct by JSON of the case"
 	// the extracted model recurses over 300 KiB lists: give the driver processes (children) a deep stack
 	var rl syscall.Rlimit
 	if syscall.Getrlimit(syscall.RLIMIT_STACK, &rl) == nil {
@@ -1018,6 +1063,7 @@ func runC06(c *Ctx) {
 	phase("feed-big", c.N(90, 1500), func(r *RNG) { c06Feed(c, c06GenBig(r, "feed", false)) })
 	phase("ops", c.N(600, 20000), func(r *RNG) { c06Ops(c, c06GenOps(r)) })
 	phase("proc", c.N(320, 7000), func(r *RNG) { c06Proc(c, c06GenProc(r)) })
+	phase("proc-scope", c.N(260, 6000), func(r *RNG) { c06Proc(c, c06GenScope(r)) })
 	phase("inter", c.N(96, 1500), func(r *RNG) { c06Inter(c, c06GenInter(r)) })
 }
 
